@@ -174,23 +174,79 @@ func checkC08(w *World, r *Report) {
 				if w.pathOf(c.Args[0]) == "P0.children" {
 					if mc, ok := c.Args[1].(*ssa.MakeClosure); ok {
 						cf := mc.Fn.(*ssa.Function)
+						// the visitor is a closure over a local counter, or a method value of a small collector
+						// (slice + next index) that was built around the slice Children returns
+						ctr, sliceField := "FV:", ""
+						var val ssa.Value
+						if len(cf.Params) == 2 {
+							val = cf.Params[1]
+						}
+						collectorOK := true
+						if t := thinWrapperTarget(cf); t != nil && cf.Synthetic != "" && len(t.Params) == 3 && len(mc.Bindings) == 1 {
+							cf, val, ctr = t, t.Params[2], "P0."
+							collectorOK = false
+						}
+						restoreCtx := func() {}
+						if ctr == "P0." {
+							restoreCtx = w.noCtx() // the collector's method is read in its own terms
+						}
 						cg := w.FGI(cf)
 						slot := make([]bool, len(cg.ins))
 						bump := make([]bool, len(cg.ins))
 						for i, in := range cg.ins {
-							if st, ok := in.(*ssa.Store); ok && len(cf.Params) == 2 && st.Val == ssa.Value(cf.Params[1]) {
-								if ia, isIdx := st.Addr.(*ssa.IndexAddr); isIdx && strings.HasPrefix(w.pathOf(ia.Index), "FV:") {
+							if st, ok := in.(*ssa.Store); ok && val != nil && st.Val == val {
+								if ia, isIdx := st.Addr.(*ssa.IndexAddr); isIdx && strings.HasPrefix(w.pathOf(ia.Index), ctr) {
 									slot[i] = true
+									if ctr == "P0." {
+										sliceField = strings.TrimPrefix(w.pathOf(ia.X), "P0.")
+									}
 								}
 							}
 							if st, ok := in.(*ssa.Store); ok {
-								if p := w.pathOf(st.Val); strings.HasPrefix(p, "(FV:") && strings.HasSuffix(p, "+K:1)") {
+								if p := w.pathOf(st.Val); strings.HasPrefix(p, "("+ctr) && strings.HasSuffix(p, "+K:1)") {
 									bump[i] = true
 								}
 							}
 						}
+						restoreCtx()
+						if ctr == "P0." && sliceField != "" {
+							// the collector handed to ForEach holds the returned slice and starts at index 0
+							al, _ := mc.Bindings[0].(*ssa.Alloc)
+							// `col := T{...}`: the literal is built in a temporary and copied into the variable
+							if al != nil && al.Referrers() != nil {
+								var whole []*ssa.Store
+								for _, ref := range *al.Referrers() {
+									if st, ok := ref.(*ssa.Store); ok && st.Addr == ssa.Value(al) {
+										whole = append(whole, st)
+									}
+								}
+								if len(whole) == 1 {
+									if ld, ok := whole[0].Val.(*ssa.UnOp); ok && ld.Op == token.MUL {
+										if tmp, ok := ld.X.(*ssa.Alloc); ok {
+											al = tmp
+										}
+									}
+								}
+							}
+							if al == nil {
+								al = new(ssa.Alloc)
+							}
+							if fs, lit := w.litFields(al); lit && fs[sliceField] != nil {
+								collectorOK = true
+								for f, v := range fs {
+									if f != sliceField && w.pathOf(v) != "K:0" {
+										collectorOK = false
+									}
+								}
+								for _, in := range w.insOf(children) {
+									if ret, ok := in.(*ssa.Return); ok && w.pathOf(ret.Results[0]) != w.pathOf(fs[sliceField]) {
+										collectorOK = false
+									}
+								}
+							}
+						}
 						// each child goes into its own slot: store at the counter, then advance it, once per call
-						okC = cg.Once(slot) && cg.Once(bump)
+						okC = cg.Once(slot) && cg.Once(bump) && collectorOK
 						for _, sn := range members(slot) {
 							if !cg.After(sn, bump) {
 								okC = false
@@ -215,7 +271,15 @@ func checkC08(w *World, r *Report) {
 				}
 			}
 		}
-		r.Check(okC, "C08.R4", "Context.Children", "Children() returns the values of the children map", w.fnPos(children), "Children() does not list exactly the entries of the children map")
+		childrenDetail := ""
+		if !okC && children != nil {
+			for _, in := range w.insOf(children) {
+				if ret, ok := in.(*ssa.Return); ok {
+					childrenDetail += " returns " + w.pathOf(ret.Results[0])
+				}
+			}
+		}
+		r.Check(okC, "C08.R4", "Context.Children", "Children() returns the values of the children map", w.fnPos(children), "Children() does not list exactly the entries of the children map"+childrenDetail)
 		// writers of Context.children contents
 		set := w.Method("safemap", "SafeMap", "Set")
 		del := w.Method("safemap", "SafeMap", "Delete")
